@@ -503,7 +503,58 @@ func (e *emitter) c05Forward(s *source, rel, goName, callee, leanName string) {
 	e.stringList(leanName, "arguments `"+goName+"` in "+rel+" hands to `"+callee+"`", out)
 }
 
+// c05IntExpr translates the right-hand side of the first `lhs := <expr>` of goName into
+// `def leanName (free variables… : Int) : Int` (translate.go's expression subset).
+func (e *emitter) c05IntExpr(t *translator, s *source, rel, goName, lhs, leanName string) {
+	fd := s.findFunc(rel, goName)
+	var rhs ast.Expr
+	if fd != nil {
+		ast.Inspect(fd.Body, func(n ast.Node) bool {
+			if as, ok := n.(*ast.AssignStmt); ok && rhs == nil && len(as.Lhs) == 1 && len(as.Rhs) == 1 {
+				if id, ok := as.Lhs[0].(*ast.Ident); ok && id.Name == lhs {
+					rhs = as.Rhs[0]
+				}
+			}
+			return true
+		})
+	}
+	if rhs == nil {
+		e.errors = append(e.errors, "no assignment to "+lhs+" in "+goName+" ("+rel+")")
+		e.printf("/-- MISSING: %s in %s -/\ndef %s : Unit := ()\n\n", lhs, goName, leanName)
+		return
+	}
+	c := &tctx{t: t, locals: map[string]bool{}, freeSet: map[string]bool{}, boolVars: map[string]bool{}}
+	var body string
+	func() {
+		defer func() {
+			if p := recover(); p != nil {
+				if te, ok := p.(transErr); ok {
+					e.errors = append(e.errors, goName+": "+te.msg)
+					body = ""
+					return
+				}
+				panic(p)
+			}
+		}()
+		body = c.expr(rhs, false)
+	}()
+	if body == "" {
+		e.printf("/-- TRANSLATION FAILED: %s of %s -/\ndef %s : Unit := ()\n\n", lhs, goName, leanName)
+		return
+	}
+	var params []string
+	for _, f := range c.free {
+		params = append(params, "("+f+" : Int)")
+	}
+	e.printf("/-- `%s := %s` in `%s` (%s) -/\ndef %s %s : Int :=\n  %s\n\n", lhs, s.src(rhs), goName, rel, leanName,
+		strings.Join(params, " "), body)
+}
+
 func c05Round5(s *source, e *emitter) {
+	// round 5c: Cond.WaitWithTimeout's remaining time, Cond.Wait / Signal as effect-free shapes
+	tc := &translator{registry: map[string]*transFunc{}, consts: map[string]string{}}
+	e.c05IntExpr(tc, s, "core/syncx/cond.go", "Cond.WaitWithTimeout", "remainTimeout", "condRemainExpr")
+	e.shapeDef(s, "core/syncx/cond.go", "Cond.Wait", "condWaitPlainShape")
 	const mrf = "core/mr/mapreduce.go"
 	e.c05Forward(s, mrf, "MapReduce", "mapReduceWithPanicChan", "mrMapReduceFwd")
 	e.c05Forward(s, mrf, "MapReduceChan", "mapReduceWithPanicChan", "mrMapReduceChanFwd")
